@@ -220,10 +220,9 @@ func Tanh(x float64) float64 {
 }
 
 func Trunc(x float64) float64 {
-	if x == posInf || x == negInf || x != x || 1/x == negInf {
-		return x
-	}
-	return Copysign(float64(int(x)), x)
+	// Math.trunc handles NaN, infinities, signed zeros, denormals and values
+	// beyond the 32-bit int range (float64(int(x)) does not).
+	return math.Call("trunc", x).Float()
 }
 
 var buf struct {
